@@ -1,7 +1,7 @@
-CONSTANTS Names = {}  Configs = {}  Strides = {}  MaxLen = 0
+CONSTANTS EP = {"e1", "e2", "e3"}  Types = {}  NativeChoices = {{}}  PlanKinds = {}
 CONSTANT KnownDeviations = ${KnownDeviations}
 SPECIFICATION TraceSpec
 CONSTRAINT HW
-INVARIANTS Inv_C10f_step Inv_Answer ExcludeWins EmptyIncludeAll
+INVARIANT NeverMixedUp
 POSTCONDITION Accepted
 CHECK_DEADLOCK FALSE
